@@ -25,7 +25,7 @@ PROPS = {
                   'C02_only_eq_defined', 'C02_equivalence'],
         streams=[stream('peq', 'items:PartialEq,Eq', force=['PartialEq'], kinds=('struct', 'enum'))],
         k2=['eq'], k2_n=(80, 800),
-        k2_also=[('generics', 'PartialEq', (40, 300))],
+        k2_also=[('generics', 'PartialEq', (40, 300)), ('bounds', 'PartialEq', (40, 300))],
         direct=[('rejections', (1500, 15000), dict(pool=['PartialEq', 'Eq'] + ['Clone', 'Debug'], must=[('PartialEq', 'PartialEq', 'Eq')], key='c02r'))],
         level_text='Theorems (closed under the global context) that the emitted `eq` of every struct / enum computes field-wise equality over the non-ignored fields, for all type definitions, attribute assignments, values and field-type behaviours; the model is tied to /repo by K1 (token equality of the PartialEq/Eq impls on generated inputs) and the real compiled code is compared with an independent oracle on enumerated value pairs (K2).',
         level_note='Trusted: Coq kernel; the hand-written model (tied by K1 on sampled inputs, not proved equal to the Rust source); Sem/Interp.v as the meaning of the emitted Rust subset; rustc as oracle in K2.',
@@ -36,7 +36,7 @@ PROPS = {
         streams=[stream('ord', 'items:PartialOrd,Ord', force=['Ord'], kinds=('struct', 'enum')),
                  stream('pord', 'items:PartialOrd,Ord', force=['PartialOrd'], kinds=('struct', 'enum'))],
         k2=['ord'], k2_n=(100, 800),
-        k2_also=[('generics', 'PartialOrd', (40, 300))],
+        k2_also=[('generics', 'PartialOrd', (40, 300)), ('bounds', 'PartialOrd', (40, 300))],
         direct=[('c03', (1, 1)), ('rejections', (1500, 15000), dict(pool=['PartialOrd', 'Ord'] + ['Clone', 'Debug'], must=[('PartialOrd', 'Ord')], key='c03r'))],
     ),
     'C04': dict(
@@ -52,7 +52,7 @@ PROPS = {
         theorems=[],
         streams=[stream('hash', 'items:Hash', force=['Hash'], kinds=('struct', 'enum'))],
         k2=['hash'], k2_n=(100, 800),
-        k2_also=[('generics', 'Hash', (40, 300))],
+        k2_also=[('generics', 'Hash', (40, 300)), ('bounds', 'Hash', (40, 300))],
         direct=[('rejections', (1500, 15000), dict(pool=['Hash'] + ['Clone', 'Debug'], must=['Hash'], key='c05r'))],
     ),
     'C06': dict(
@@ -60,7 +60,7 @@ PROPS = {
         theorems=[],
         streams=[stream('debug', 'items:Debug', force=['Debug'], kinds=('struct', 'enum'))],
         k2=['debug'], k2_n=(160, 1500),
-        k2_also=[('generics', 'Debug', (40, 300))],
+        k2_also=[('generics', 'Debug', (40, 300)), ('bounds', 'Debug', (40, 300))],
         direct=[('rejections', (1500, 15000), dict(pool=['Debug'] + ['Clone', 'Debug'], must=['Debug'], key='c06r'))],
     ),
     'C07': dict(
@@ -68,7 +68,7 @@ PROPS = {
         theorems=[],
         streams=[stream('clone', 'items:Clone,Copy', force=['Clone'], kinds=('struct', 'enum', 'union'))],
         k2=['clone'], k2_n=(80, 800),
-        k2_also=[('generics', 'Clone', (40, 300))],
+        k2_also=[('generics', 'Clone', (40, 300)), ('bounds', 'Clone', (40, 300))],
         direct=[('c07', (1500, 15000)), ('rejections', (1500, 15000), dict(pool=['Clone', 'Copy', 'Debug'], must=['Clone'], key='c07r'))],
     ),
     'C08': dict(
@@ -76,7 +76,7 @@ PROPS = {
         theorems=[],
         streams=[stream('default', 'items:Default,inherent', force=['Default'], kinds=('struct', 'enum', 'union'))],
         k2=['default', 'union'], k2_ops=['default', 'new', 'union_default', 'compile', 'crash'], k2_n=(200, 2000),
-        k2_also=[('generics', 'Default', (40, 300))],
+        k2_also=[('generics', 'Default', (40, 300)), ('bounds', 'Default', (40, 300))],
         direct=[('rejections', (1500, 15000), dict(pool=['Default'] + ['Clone', 'Debug'], must=['Default'], key='c08r'))],
     ),
     'C20': dict(
